@@ -1,0 +1,164 @@
+//go:build verif
+
+package dataflow
+
+// Machine-checked contracts for this package (comment-only; compiled only with
+// the build tag `verif`); read by /verif/govc. See /verif/DESIGN.md.
+
+// ---------------------------------------------------------------------------
+// C08: every value-computing instruction transfers the marks of each of its data
+// operands to its result (one def-use step of the summary). "xfer" is any member
+// of the transfer family applied to (state, location, in, out).
+
+//@ macro xfer(st, loc, in, out) = called(simpleTransfer, st, loc, in, out) || called(transferCopy, st, loc, in, out) || called(transfer, st, loc, in, out, _, _) || called(transferPre, st, loc, in, out, _, _, _)
+
+//@ func IntraAnalysisState.DoUnOp
+//@   property C08
+//@   ensures X: xfer(state, x, x.X, x)
+
+//@ func IntraAnalysisState.DoBinOp
+//@   property C08
+//@   ensures X: xfer(state, binop, binop.X, binop)
+//@   ensures Y: xfer(state, binop, binop.Y, binop)
+
+//@ func IntraAnalysisState.DoChangeInterface
+//@   property C08
+//@   ensures X: xfer(state, x, x.X, x)
+
+//@ func IntraAnalysisState.DoChangeType
+//@   property C08
+//@   ensures X: xfer(state, x, x.X, x)
+
+//@ func IntraAnalysisState.DoConvert
+//@   property C08
+//@   ensures X: xfer(state, x, x.X, x)
+
+//@ func IntraAnalysisState.DoSliceArrayToPointer
+//@   property C08
+//@   ensures X: xfer(state, x, x.X, x)
+
+//@ func IntraAnalysisState.DoMakeInterface
+//@   property C08
+//@   ensures X: xfer(state, x, x.X, x)
+
+//@ func IntraAnalysisState.DoExtract
+//@   property C08
+//@   ensures Tuple: xfer(state, x, x.Tuple, x)
+
+//@ func IntraAnalysisState.DoSlice
+//@   property C08
+//@   ensures X: xfer(state, x, x.X, x)
+
+//@ func IntraAnalysisState.DoSend
+//@   property C08
+//@   ensures X: xfer(state, x, x.X, x.Chan)
+
+//@ func IntraAnalysisState.DoStore
+//@   property C08
+//@   ensures Val: xfer(state, x, x.Val, x.Addr)
+
+//@ func IntraAnalysisState.DoRange
+//@   property C08
+//@   ensures X: xfer(state, x, x.X, x)
+
+//@ func IntraAnalysisState.DoNext
+//@   property C08
+//@   ensures Iter: xfer(state, x, x.Iter, x)
+
+//@ func IntraAnalysisState.DoFieldAddr
+//@   property C08
+//@   requires x != nil
+//@   ensures X: xfer(state, x, x.X, x)
+
+//@ func IntraAnalysisState.DoField
+//@   property C08
+//@   requires x != nil
+//@   ensures X: xfer(state, x, x.X, x)
+
+//@ func IntraAnalysisState.DoIndexAddr
+//@   property C08
+//@   ensures X: xfer(state, x, x.X, x)
+//@   ensures Index: xfer(state, x, x.Index, x)
+
+//@ func IntraAnalysisState.DoIndex
+//@   property C08
+//@   ensures X: xfer(state, x, x.X, x)
+//@   ensures Index: xfer(state, x, x.Index, x)
+
+//@ func IntraAnalysisState.DoLookup
+//@   property C08
+//@   ensures X: xfer(state, x, x.X, x)
+//@   ensures Index: xfer(state, x, x.Index, x)
+
+//@ func IntraAnalysisState.DoMapUpdate
+//@   property C08
+//@   ensures Key: xfer(state, x, x.Key, x.Map)
+//@   ensures Value: xfer(state, x, x.Value, x.Map)
+
+//@ func IntraAnalysisState.DoTypeAssert
+//@   property C08
+//@   ensures X: xfer(state, x, x.X, x)
+
+//@ func IntraAnalysisState.DoPhi
+//@   property C08
+//@   ensures Edges: forall i int :: 0 <= i && i < len(phi.Edges) ==> xfer(state, phi, phi.Edges[i], phi)
+
+//@ func IntraAnalysisState.DoSelect
+//@   property C08 C07
+//@   requires x != nil
+//@   requires forall k int :: 0 <= k && k < len(x.States) ==> x.States[k] != nil && (x.States[k].Dir == types.RecvOnly || x.States[k].Dir == types.SendOnly)
+//@   nopanic
+//@   ensures Recv: forall i int :: 0 <= i && i < len(x.States) && x.States[i].Dir == types.RecvOnly ==> xfer(state, x, x.States[i].Chan, x)
+//@   ensures Send: forall i int :: 0 <= i && i < len(x.States) && x.States[i].Dir == types.SendOnly ==> xfer(state, x, x.States[i].Send, x.States[i].Chan)
+
+//@ func simpleTransfer
+//@   property C08
+//@   ensures delegates: called(transfer, state, loc, in, out, _, _)
+
+//@ func transfer
+//@   property C08
+//@   ensures delegates: called(transferPre, state, loc, in, out, path, index, _)
+
+// ---------------------------------------------------------------------------
+// C08 / C01: edges of the summary graph.
+
+// addEdge: frame only (assumed, not yet verified): it adds edge records and
+// never touches the node tables of the graph or the argument lists of call nodes.
+//@ func SummaryGraph.addEdge
+//@   property C08
+//@   assumed
+//@   modifies map(GraphNode;[]EdgeInfo), map(GraphNode;EdgeInfo), elems(EdgeInfo), map(string;map[string]bool), map(string;bool)
+
+// addReturnEdge must add the edge for every tuple index of the return
+// instruction: a mark reaching the i-th returned value of `return a, b, c` flows
+// to the i-th return node for every 0 <= i < number of returned values.
+//@ func SummaryGraph.addReturnEdge
+//@   property C08 C01
+//@   requires g != nil && has(g.Returns, retInstr)
+//@   safety
+//@   ensures every_index: old(0 <= tupleIndex && tupleIndex < len(g.Returns[retInstr]) && g.Returns[retInstr][tupleIndex] != nil) ==> called(SummaryGraph.addEdge, g, mark, old(g.Returns[retInstr][tupleIndex]), cond)
+
+// addCallArgEdge must add the edge to EVERY argument position of every callee
+// node of the call that holds the value (f(s, s) has two).
+//@ func SummaryGraph.addCallArgEdge
+//@   property C08 C01
+//@   ghost fk *ssa.Function
+//@   ghost p int
+//@   requires g != nil && has(g.Callees, call) && g.Callees[call] != nil && has(g.Callees[call], fk)
+//@   requires forall k *ssa.Function :: has(g.Callees[call], k) ==> g.Callees[call][k] != nil
+//@   requires 0 <= p && p < len(g.Callees[call][fk].args) && g.Callees[call][fk].args[p] != nil && g.Callees[call][fk].args[p].ssaValue == arg
+//@   ensures every_position: called(SummaryGraph.addEdge, g, mark, old(g.Callees[call][fk].args[p]), cond)
+//@   loop callNode invariant visited(callNode, fk) ==> called(SummaryGraph.addEdge, g, mark, old(g.Callees[call][fk].args[p]), cond)
+//@   loop callNodeArg invariant callNode == old(g.Callees[call][fk]) && p < iter(callNodeArg) ==> called(SummaryGraph.addEdge, g, mark, old(g.Callees[call][fk].args[p]), cond)
+//@   loop callNodeArg invariant callNode == old(g.Callees[call][fk]) && p < iter(callNodeArg) ==> found
+
+//@ func CallNode.FindArg
+//@   property C08
+//@   pure
+//@   reads CallNode.args, elems(*CallNodeArg), CallNodeArg.ssaValue
+//@   requires a != nil
+//@   requires forall k int :: 0 <= k && k < len(a.args) ==> a.args[k] != nil
+//@   safety
+//@   ensures found: result != nil ==> result.ssaValue == v
+//@   ensures complete: forall i int :: 0 <= i && i < len(a.args) && a.args[i] != nil && a.args[i].ssaValue == v ==> result != nil
+//@   loop argNode invariant forall j int :: 0 <= j && j < iter(argNode) ==> a.args[j] == nil || a.args[j].ssaValue != v
